@@ -149,7 +149,7 @@ func checkC10(c *Ctx, r *Report) {
 					f = p
 				}
 				for _, a := range allAnon(p) {
-					if len(callsIn(a, gaterIface+s.gate)) > 0 {
+					if len(callsInOnly(a, gaterIface+s.gate)) > 0 {
 						f = a
 					}
 				}
@@ -260,7 +260,7 @@ func checkC10(c *Ctx, r *Report) {
 			continue
 		}
 		for _, m := range []string{"InterceptPeerDial", "InterceptAddrDial", "InterceptAccept", "InterceptSecured", "InterceptUpgraded"} {
-			for _, g := range callsIn(f, gaterIface+m) {
+			for _, g := range callsInOnly(f, gaterIface+m) {
 				if !covered[g.(ssa.Instruction)] {
 					r1.Fail(fnKey(f)+": unclassified "+m+" site", instrPos(g.(ssa.Instruction)), "gate call site not in the inventory table; add it with its sinks", "")
 				}
@@ -388,7 +388,7 @@ func checkC10(c *Ctx, r *Report) {
 		}
 		// when a datastore is configured the write is attempted (non-nil edge reaches the ds call before anything else)
 		var nonNil []CFGEdge
-		for _, b := range f.Blocks {
+		for _, b := range blocksDeep(f) {
 			for i := range b.Succs {
 				if edgeNil(isLoadOfField(gT+".ds"), false)(b, i) {
 					nonNil = append(nonNil, CFGEdge{b, i})
@@ -426,7 +426,14 @@ func checkC10(c *Ctx, r *Report) {
 	// keyShape: NewKey(prefix + X.String()) with X the whole parameter
 	keyShape := func(f *ssa.Function, param string) (prefix string, whole bool, suffixCallee string) {
 		for _, nk := range callsIn(f, "github.com/ipfs/go-datastore.NewKey") {
-			b, ok := strip2(nk.Common().Args[0]).(*ssa.BinOp)
+			keyArg := strip2(nk.Common().Args[0])
+			if p, isP := keyArg.(*ssa.Parameter); isP && p.Parent() != f {
+				// built by the caller and handed to a helper extracted since: what f passes for that parameter
+				if a := argOfParam(f, p); a != nil {
+					keyArg = strip2(a)
+				}
+			}
+			b, ok := keyArg.(*ssa.BinOp)
 			if !ok || b.Op != token.ADD {
 				continue
 			}
